@@ -9,6 +9,9 @@ R: every plan's octets are sent to the real server over the virtual socket at th
    valid frames, each under a watchdog.
    "Reframed" plans mutate the CIP message itself (service, path, counts, every data element of a Write Tag, a Set Attribute
    Single, a bundle, a Forward Open) and frame it again with consistent lengths, so the mutation reaches the request handlers.
+T: request routing ([UCMM] Route) to a second simulator process over a relay that delays every reply chunk by 0.3 s: a request
+   whose Unconnected Send time-out (10 ms) is shorter than the link's latency fails; the requests of other sessions, before
+   and after it, must be answered with THEIR data from the device they address (RouteTrace).
 U: the datagram service (spec/Udp.tla, model-checked in MC_Udp: independence of datagrams, one reply per well-formed request):
    the same hostile octets, every truncation and an oversized copy of every well-formed frame, and random mixes are fed as
    datagrams between well-formed ones from several peers to the real enip_srv_udp (scripted recvfrom); TLC (UdpTrace) decides
@@ -173,6 +176,120 @@ def udp_part(ctx, wd, rng, plans, valid, wmsgs):
     ev.extra.update({"udp_runs": len(lines), "udp_max_wall_s": max(ln["wall"] for ln in lines)})
 
 
+def exec_routing(job):
+    """request routing to a second device over a slow link: a request whose time-out is shorter than the link's latency must
+    not disturb the requests of other sessions (RouteTrace)"""
+    import socket
+    from .. import live, sim
+    cfg, steps, latency = job
+    texts = []
+    for tg in cfg["tags"]:
+        name = bytes(bytearray(tg["name"])).decode("ascii")
+        texts.append("%s=%s%s" % (name, tg["type"], "" if tg["scalar"] else "[%d]" % tg["len"]))
+    remote = relay = srv = None
+    socks, ev, exc = {}, [], ""
+    try:
+        remote = live.RemoteSim(texts)
+        relay = live.Relay(remote.address, delay=latency, every=True)
+        srv = live.LiveServer(cfg, pers={"k": "routing", "route": {"1/2": "%s:%d" % relay.address}})
+        mem1 = srv.dev.get_mem()
+        for st in steps:
+            if st.get("sleep"):
+                time.sleep(st["sleep"])
+                continue
+            sid = st["s"]
+            if sid not in socks:
+                socks[sid] = socket.create_connection(srv.address, timeout=5)
+            sk = socks[sid]
+            try:
+                sk.sendall(bytes(bytearray(st["fb"])))
+                sk.settimeout(st.get("wait", 4.0))
+                buf = b""
+                while len(buf) < 24 or len(buf) < 24 + buf[2] + 256 * buf[3]:
+                    d = sk.recv(4096)
+                    if not d:
+                        break
+                    buf += d
+            except (socket.timeout, OSError):
+                buf = b""
+            whole = len(buf) >= 24 and len(buf) == 24 + buf[2] + 256 * buf[3]
+            ev.append({"f": st["f"], "b": list(buf) if whole else [], "hostile": bool(st.get("hostile"))})
+        end1 = srv.dev.get_mem()
+    except Exception as e:
+        exc = repr(e)
+        mem1 = end1 = []
+    finally:
+        for sk in socks.values():
+            try:
+                sk.close()
+            except OSError:
+                pass
+        if srv:
+            srv.stop()
+        if relay:
+            relay.close()
+        if remote:
+            remote.stop()
+    zero = [[[0] * {"INT": 2, "DINT": 4}[tg["type"]] for _ in range(tg["len"])] for tg in cfg["tags"]]
+    return {"cfg1": cfg, "cfg2": cfg, "mem1": mem1, "mem2": zero, "via": {"k": "port", "p": 1, "l": 2}, "ev": ev, "end1": end1, "exc": exc,
+            "steps": [{k: v for k, v in st.items() if k != "fb"} for st in steps]}
+
+
+def routing_part(ctx, wd, rng):
+    from .. import serverlib
+    ev = ctx.ev
+    scs = serverlib.emit_scenarios(ctx, wd, 1, "any", "routing", "routing")
+    if not scs:
+        return
+    fr = [{"f": s["sc"]["frames"][0], "fb": s["fb"][0]} for s in scs]
+    cfg = scs[0]["sc"]["cfg"]
+    reg = [x for x in fr if x["f"]["kind"] == "register"][0]
+    hostile = [x for x in fr if "uticks" in x["f"]]
+    routed = [x for x in fr if x["f"]["kind"] == "rr" and x["f"]["route"][0]["l"] == 2 and "uticks" not in x["f"]]
+    local = [x for x in fr if x["f"]["kind"] == "rr" and x["f"]["route"][0]["l"] == 0]
+    wr = [x for x in routed if x["f"]["req"]["svc"] == "write"]
+    rd = [x for x in routed if x["f"]["req"]["svc"] == "read"]
+    jobs = []
+    for n in range(4 if ctx.quick else 24):
+        h = hostile[n % len(hostile)]
+        steps = [dict(reg, s="B"), dict(rng.choice(wr), s="B"), dict(rng.choice(local), s="B"), dict(rng.choice(rd), s="B"),
+                 dict(reg, s="A"), dict(h, s="A", hostile=True, wait=1.2), {"sleep": 0.7}]
+        # the victim's next routed request must be answered with ITS data: pick one that differs from the hostile one
+        others = [x for x in rd if x["f"]["req"] != h["f"]["req"]]
+        steps += [dict(rng.choice(others), s="B"), dict(rng.choice(rd), s="B"), dict(rng.choice(local), s="B"), dict(rng.choice(rd), s="C0")]
+        steps.insert(len(steps) - 1, dict(reg, s="C0"))
+        jobs.append((cfg, steps, 0.3))
+    lines = core.pmap(exec_routing, jobs, chunksize=1, procs=min(8, len(jobs)))
+    for ln in lines:
+        ev.case(key="routing" + json.dumps(ln["steps"]), nontrivial=True)
+        if ln["exc"]:
+            ctx.machinery.append("routing scenario could not run: %s" % ln["exc"][:200])
+    ev.sample({"routing_steps": [(st.get("s"), st["f"]["kind"], st["f"]["req"]["svc"] if "f" in st else "", bool(st.get("hostile"))) if "f" in st else "sleep" for st in lines[0]["steps"]],
+               "replies": [len(e["b"]) for e in lines[0]["ev"]]})
+    fd, path = tempfile.mkstemp(prefix="route_", suffix=".ndjson")
+    with os.fdopen(fd, "w") as f:
+        for ln in lines:
+            f.write(json.dumps({k: ln[k] for k in ("cfg1", "cfg2", "mem1", "mem2", "via", "ev", "end1")}, separators=(",", ":")) + "\n")
+    try:
+        r3 = tlc.run("RouteTrace", "RouteTrace.cfg", env={"TRACE_FILE": path}, timeout=1200)
+    finally:
+        os.unlink(path)
+    ev.tlc("routing", r3)
+    rejected = {}
+    for j in r3.json:
+        if "tid" in j:
+            rejected.setdefault(j["tid"], j)
+    if not rejected and r3.distinct != sum(len(ln["ev"]) + 1 for ln in lines):
+        ctx.machinery.append("RouteTrace visited %d states, expected %d" % (r3.distinct, sum(len(ln["ev"]) + 1 for ln in lines)))
+    for tid, j in rejected.items():
+        ln = lines[tid - 1]
+        e = ln["ev"][min(j["at"], len(ln["ev"])) - 1]
+        ctx.violation("routing_%s" % j["why"], {"routing": True, "why": j["why"], "at": j["at"], "steps": ln["steps"], "ev": ln["ev"]},
+                      what="request routing over a slow link: %s at step %d: request %s answered %s" % (
+                          j["why"], j["at"], json.dumps(e["f"]["req"])[:160], e["b"][40:70]))
+    ev.extra["routing_scenarios"] = len(lines)
+
+
 def contains(big, small):
     big, small = bytes(bytearray(big)), bytes(bytearray(small))
     return small in big
@@ -259,10 +376,14 @@ def main(ctx):
                           what="hostile input %s: %s; events %s" % (ln["label"], why, json.dumps([{k: (v if k != "b" else len(v)) for k, v in e.items()} for e in ln["ev"]][-6:])))
     ev.extra.update({"plans": len(plans), "sessions": len(lines), "random_inputs": nrand, "max_wall_s": max(ln["wall"] for ln in lines)})
     udp_part(ctx, wd, rng, plans, valid, wmsgs)
+    routing_part(ctx, wd, rng)
 
 
 def replay(ctx, path):
     rec = json.load(open(path))
+    if rec.get("routing"):
+        print(json.dumps({"why": rec["why"], "at": rec["at"], "steps": rec["steps"]})[:1500])
+        return 1
     if rec.get("udp"):
         print(json.dumps({"label": rec["label"], "why": rec["why"], "at": rec["at"]}))
         return 1
